@@ -123,7 +123,17 @@ def _(M, a, c):
     if r.variant == 0: return Agg('ControlFlow', 0, [r.fields[0]])
     return Agg('ControlFlow', 1, [Agg('Result', 1, [r.fields[0]])])
 @model_re(r'^<std::result::Result<.*> as FromResidual<.*>>::from_residual$')
-def _(M, a, c): return Agg('Result', 1, [a[0].fields[0]])
+def _(M, a, c):
+    e = a[0].fields[0]
+    # `?` converts the error with `From` when the two error types differ
+    m = re.match(r'^<(?:std::result::)?Result<(.*)> as FromResidual<(?:std::result::)?Result<(.*)>>>::from_residual$', norm_name(c))
+    if m:
+        try:
+            dst = split_top(m.group(1))[-1].strip(); src = split_top(m.group(2))[-1].strip()
+            if dst != src: e = M.do_call('<%s as From<%s>>::from' % (dst, src), [e], None)
+        except Unsupported: raise
+        except Exception: pass
+    return Agg('Result', 1, [e])
 @model_re(r'^<\{closure@.*\} as Fn(Mut|Once)?<.*>>::call(_mut|_once)?$')
 def _(M, a, c):
     f = V(a[0]); args = a[1].fields
@@ -215,6 +225,17 @@ def _(M, a, c): return Native('Box', slot=[a[0]])
 @model_re(r'^<.* as Into<.*>>::into$|^<.* as From<.*>>::from$')
 def _(M, a, c):
     x = a[0]
+    nm0 = norm_name(c)
+    # a `From` impl written in the crate: run it (`Into` is the blanket impl over it)
+    m0 = re.match(r'^<(.*) as From<(.*)>>::from$', nm0)
+    if m0: dst0, src0 = m0.group(1), m0.group(2)
+    else:
+        m0 = re.match(r'^<(.*) as Into<(.*)>>::into$', nm0); src0, dst0 = (m0.group(1), m0.group(2)) if m0 else (None, None)
+    if dst0 is not None and dst0 != src0:
+        short = lambda s: re.sub(r'<.*', '', s).split('::')[-1]
+        for name, b in M.bodies.items():
+            if name.endswith('::from') and re.search(r'\(_1: (?:\w+::)*' + re.escape(short(src0)) + r'(?:<.*>)?\) -> (?:\w+::)*' + re.escape(short(dst0)) + r'\b', b.header):
+                return M.call(name, [x])
     if isinstance(x, Int):
         # lossless integer / char conversions change the width (`i64::from(i32)`, `char::from(u8)`, `u32::from(char)`)
         nm = norm_name(c)
@@ -837,6 +858,12 @@ def iter_items(M, it):
 def _(M, a, c):
     if a[0].variant == 1: return a[0].fields[0]
     if '(usize, usize)' in c: return Agg('tuple', 0, [usize(0), usize(0)])
+    m = re.search(r'Option::<(.*)>::unwrap_or_default', c)
+    if m:
+        from . import itermodels
+        ty = m.group(1).strip()
+        if ty.startswith('(') and ty.endswith(')'): return Agg('tuple', 0, [itermodels.default_of(M, x) for x in split_top(ty[1:-1])])
+        return itermodels.default_of(M, ty)
     raise Unsupported("unwrap_or_default of " + c)
 def checked2(opn):
     def f(M, a, c):
@@ -1148,4 +1175,10 @@ def _(M, a, c):
     if fn == 'is_none_or': return (not has) or M.branch(_callf(M, a[1], [x]))
     if fn == 'as_mut': return some(Ref(o.fields, 0)) if has else NONE()
     if fn == 'unwrap_unchecked': return x
+    if fn == 'as_deref':
+        # Option<String> / Option<Vec<T>> / Option<Box<T>> -> Option<&str / &[T] / &T>
+        if not has: return NONE()
+        if isinstance(x, Native) and x.kind in ('String', 'Vec'): return some(Slice(x.d['b'], 0, len(x.d['b']), x.kind == 'String'))
+        if isinstance(x, Native) and x.kind == 'Box': return some(Ref(x.d['slot'], 0))
+        return some(Ref(o.fields, 0))
     raise Unsupported("Option::" + fn)
